@@ -250,6 +250,18 @@ func runC09(c *Ctx) {
 			pairs = append(pairs, docItem{"same-family-pairs", append(append(append([]byte{}, a...), 0xff), b...)})
 		}
 	}
+	// a paragraph with an unclosed opener of every inline construct before a block with the
+	// complete construct of every kind: inline state must not outlive a block
+	{
+		openers := []string{"zq <!-- b", "zq <? b", "zq <![CDATA[ b", "zq <!X b", "zq <a href=\"x", "zq ` b", "zq `` b", "zq *b", "zq __b", "zq \\", "zq &amp", "zq <b", "zq ~~b", "zq www.", "zq \"b", "zq 'b"}
+		closed := []string{"x <!-- c --> y", "x <?p?> y", "x <![CDATA[d]]> y", "x <!D e> y", "x <a href=\"u\">k</a> y", "x `c` y", "x ``c`` y", "x *e* y", "x __s__ y", "x \\* y", "x &amp; y", "x <b>r</b> y", "x ~~d~~ y", "x www.a.b y", "x \"q\" y", "it's y"}
+		for _, a := range openers {
+			for _, b := range closed {
+				pairs = append(pairs, docItem{"stray-opener-pairs", append(append(append([]byte{}, a+"\n"...), 0xff), b+"\n"...)})
+				pairs = append(pairs, docItem{"stray-opener-pairs", append(append(append([]byte{}, "- "+a+"\n"...), 0xff), "> "+b+"\n"...)})
+			}
+		}
+	}
 	// long closed prefixes: every filler length around 64..260 (quick) before a tail with loose
 	// lists and other per-line state
 	for _, fl := range longFillers {
